@@ -14,7 +14,7 @@
                        branch and the len_low > 0 combination)            sd_tplexp*, sd_tplgau*
    scipy special functions are [noracle O code args]. numpy's masks are modelled on one scalar. *)
 From Coq Require Import ZArith List Bool.
-From GS Require Import Num Loops.
+From GS Require Import Num Loops Formulas.
 Import ListNotations.
 
 Inductive cls :=
@@ -57,14 +57,15 @@ Definition gamma (x : T) : T := noracle O ORA_GAMMA [x].
 Definition loggamma (x : T) : T := noracle O ORA_LOGGAMMA [x].
 Definition jv (nu x : T) : T := noracle O ORA_JV [nu; x].
 Definition hyp2f1 (a b c x : T) : T := noracle O ORA_HYP2F1 [a; b; c; x].
-(* scipy.special.gammainc: the REGULARISED lower incomplete gamma function P(s, x) *)
-Definition gammainc (s x : T) : T := noracle O ORA_INCGAMMA_LOW [s; x].
+(* gstools.tools.special.inc_gamma_low(s, x): the lower incomplete gamma function (the translator's meaning of this code) *)
+Definition inc_gamma_low (s x : T) : T := noracle O ORA_INCGAMMA_LOW [s; x].
+(* integer literals as the translator renders them: 0, 1, other *)
+Definition ilit (n : Z) : T := if (n =? 0)%Z then zero else if (n =? 1)%Z then one else nlit O n 0.
 
-(* np.minimum / np.maximum on scalars *)
-Definition nmin (a b : T) : T := if nisnan O a then a else if nltb O a b then a else b.
-Definition nmax (a b : T) : T := if nisnan O a then a else if nleb O b a then a else b.
-(* np.isclose(a, 0): |a| <= 1e-8 *)
-Definition isclose0 (a : T) : bool := nleb O (nabs O a) (lit 1 8).
+(* np.minimum / np.maximum on non-NaN scalars, np.isclose(a, 0): the helpers of lib/Formulas.v *)
+Definition nmin (a b : T) : T := fmin O a b.
+Definition nmax (a b : T) : T := fmax O a b.
+Definition isclose0 (a : T) : bool := fisclose O a zero.
 
 (* ---------- bounds *)
 Record bound := mkB { b_lo : T; b_hi : option T; b_lo_closed : bool; b_hi_closed : bool }.
@@ -163,9 +164,6 @@ Definition sd_matern (dim : Z) (ell nu k : T) : T :=
     *! nexp O (nneg O (nu +! half_dim dim) *! nln O (one +! x /! nu)
                +! loggamma (nu +! half_dim dim) -! loggamma nu -! ofZ dim *! nln O (nsqrt O nu)).
 
-(* gstools.tools.special.inc_gamma_low for s >= 0.5 (the only case reached from the spectra) *)
-Definition inc_gamma_low (s x : T) : T := gamma s *! gammainc s x.
-
 Definition sd_integral (dim : Z) (ell nu k : T) : T :=
   let fac := npow O (lit 5 1 *! ell /! sqrtpi) (ofZ dim) in
   let lim := fac *! nu /! (nu +! ofZ dim) in
@@ -206,7 +204,7 @@ Definition sd_tplexp0 (dim : Z) (ell hurst k : T) : T :=
 Fixpoint gau_series (cnt : nat) (n : Z) (a z term series : T) : T :=
   match cnt with
   | 0%nat => series
-  | S c => gau_series c (n + 1)%Z a z (term *! (nneg O z /! (ofZ n +! one))) (series +! term /! (a +! ofZ n))
+  | S c => gau_series c (n + 1)%Z a z (term *! (nneg O z /! (ilit n +! one))) (series +! term /! (a +! ilit n))
   end.
 
 (* tpl_gau_spec_dens, branch len_low == 0 *)
